@@ -59,6 +59,16 @@ def spice_names(rng: random.Random, schema, p=0.12):
     return schema
 
 
+def as_index(labels, kind):
+    """the pandas index object for generated labels: a genuine RangeIndex for the range kinds"""
+    if kind == "range_offset" and len(labels) >= 1:
+        step = labels[1] - labels[0] if len(labels) > 1 else 1
+        return pd.RangeIndex(labels[0], labels[0] + len(labels) * step, step)
+    if kind == "range":
+        return pd.RangeIndex(len(labels))
+    return labels
+
+
 def gen_rows(rng: random.Random, schema, nrows: int, max_len=5, missing_p=0.2, empty_p=0.2, null_p=0.15):
     """list of None | {field: list of values}"""
     rows = []
@@ -264,9 +274,12 @@ def parquet_layout(rng, schema, rows, tmpdir) -> pa.ChunkedArray:
 
 
 def gen_labels(rng: random.Random, n: int, kind=None):
-    kind = kind or rng.choice(["range", "sorted_unique", "unsorted_unique", "repeats", "str", "str_repeats"])
+    kind = kind or rng.choice(["range", "sorted_unique", "unsorted_unique", "repeats", "str", "str_repeats", "range_offset"])
     if kind == "range":
         return list(range(n)), kind
+    if kind == "range_offset":      # what a row slice of a default-indexed frame carries: a RangeIndex that does not start at 0 / has a step
+        start, step = rng.randint(1, 9), rng.choice([1, 1, 2, 3])
+        return list(range(start, start + n * step, step)), kind
     if kind == "sorted_unique":
         return sorted(rng.sample(range(-20, 60), n)), kind
     if kind == "unsorted_unique":
